@@ -6,7 +6,9 @@ Mixes == { <<"fall", "fall", "fall">>, <<"fall", "term", "fall", "rej">>, <<"eat
            <<"fall", "eatfall", "fall", "eatfall", "fall", "fall">>, <<"rej", "rej", "term">>, <<"fall">>,
            <<"tlsfall", "fall", "tlsfall">>, <<"tlsfall">>,
            \* "hold": consumed by a terminal handler that is still serving when the listener is closed
-           <<"hold", "fall">>, <<"fall", "hold", "term">> }
+           <<"hold", "fall">>, <<"fall", "hold", "term">>,
+           \* "eatlate": matched non-terminal route, a later route needs more data and says no, fall-through; read late
+           <<"eatlate", "fall">>, <<"eatlate">> }
 Grid == [mix : Mixes, consumer : {"fast", "slow", "absent"}, procs : {1, 2, 16},
          slen : {0, 5, 300, 2048, 5000, 20000}, close : {"end", "early"}, pace : {0, 1}]
 QuickGrid == { g \in Grid : g.slen \in {5, 2048, 20000} /\ g.procs \in {1, 16} /\ g.pace = 0 }
